@@ -35,6 +35,7 @@ type Req struct {
 	Dest  string `json:"dest"`
 	Ctype string `json:"ctype"`
 	Body  string `json:"body"`
+	Cond  string `json:"cond"` // "none" or "<ifm|ifnm>-<form>": a conditional header whose value is not an entity tag
 }
 type Case struct {
 	R    Req    `json:"r"`
@@ -45,6 +46,8 @@ type Mutant struct {
 	M     string    `json:"m"`
 	Level int       `json:"level"`
 	Doc   xmlt.Node `json:"doc"`
+	Want  string    `json:"want"` // classification, if the generator attached one ("4xx" for documents outside the RFC)
+	What  string    `json:"what"` // which rule of the RFC the document breaks
 }
 
 const icalBody = "BEGIN:VCALENDAR\r\nVERSION:2.0\r\nPRODID:-//x//y//EN\r\nBEGIN:VEVENT\r\nUID:u1\r\nDTSTAMP:20200101T000000Z\r\nDTSTART:20200101T000000Z\r\nEND:VEVENT\r\nEND:VCALENDAR\r\n"
@@ -236,6 +239,10 @@ func send(w *world, r Req, path string, body []byte, forceEmptyBody bool) map[st
 	case "bad":
 		req.Header.Set("Overwrite", "maybe")
 	}
+	if k := strings.Index(r.Cond, "-"); k > 0 {
+		val := map[string]string{"onebyte": "x", "quote": `"`, "unterminated": `"abc`, "weakprefix": "W/", "bare": "abc", "comma": ","}[r.Cond[k+1:]]
+		req.Header.Set(map[string]string{"ifm": "If-Match", "ifnm": "If-None-Match"}[r.Cond[:k]], val)
+	}
 	switch r.Dest {
 	case "ok":
 		req.Header.Set("Destination", "/dest-"+strings.Trim(path, "/"))
@@ -344,7 +351,7 @@ func main() {
 				os.Exit(2)
 			}
 			w := get(m.Srv, false)
-			r := Req{Srv: m.Srv, M: m.M, Level: m.Level, Depth: "absent", Ctype: "xml", Body: "mutant"}
+			r := Req{Srv: m.Srv, M: m.M, Level: m.Level, Depth: "absent", Ctype: "xml", Body: "mutant", Cond: "none"}
 			if m.M == "PROPFIND" {
 				r.Depth = "0"
 			}
@@ -361,7 +368,15 @@ func main() {
 				if m.M == "PROPPATCH" && m.Srv == "cal" {
 					want = "any"
 				}
+				if m.Want != "" {
+					want = m.Want // documents the wire specifications classify as outside the RFC: 4xx, no backend call
+				}
 				ev["k"], ev["ci"], ev["want"], ev["r"] = "mutant", i, want, r
+				if m.What != "" {
+					rr := r
+					rr.Body = "outside-rfc(" + m.What + ")"
+					ev["k"], ev["r"] = "invalid", rr
+				}
 				enc.Encode(ev)
 				n++
 			}
@@ -379,7 +394,7 @@ func main() {
 				if m == "PUT" {
 					level = 4
 				}
-				r := Req{Srv: srv, M: m, Level: level, Depth: "absent", Ctype: "xml", Body: "valid"}
+				r := Req{Srv: srv, M: m, Level: level, Depth: "absent", Ctype: "xml", Body: "valid", Cond: "none"}
 				if m == "PUT" {
 					r.Ctype = "obj"
 				}
